@@ -1,15 +1,24 @@
 """C17 - Derivative atoms have a canonical identity: naming and order bookkeeping.
 
 theorems      : coq/Props/C17.v (symbol name <-> (component, multi-index), order independence, SymbolicExpr as a
-                homomorphism, exactness / soundness of the reported maximal orders; *_refuted for what the code misses)
+                homomorphism, exactness / soundness of the reported maximal orders; *_refuted for what the code misses).
+                All atoms a chain can be applied to are covered: functions, components, their restrictions to a side
+                of an interface (minus / plus), mapping components M[i]; the symbol identifies (akey_of atom,
+                multi-index): the side and the mapping's name are forgotten (refuted lemmas with witnesses).
+                SymbolicExpr is a partial function: it raises exactly on kernels with an object without translation.
 correspondence: coq/Model/NamesM.v against sympde SymbolicExpr / find_partial_derivatives /
                 get_index_(logical_)derivatives_atom / get_max_(logical_)partial_derivatives on generated chains
                 and kernels; every comparison is decided inside Coq (names and index dictionaries structurally,
-                symbolic kernels modulo the argument order of Add/Mul)
+                symbolic kernels modulo the argument order of Add/Mul, exceptions as a two-valued enum).
+                Grammar: arithmetic, elementary functions, tuples / python lists / matrices, interface operators,
+                Mapping / SymbolicWeightedVolume / SymbolicDeterminant, plain sympy Symbol / IndexedBase / Indexed /
+                Idx / I, PullBack, objects without an arm, bare python objects in python containers.
 oracle        : the property itself on the implementation's outputs, independent of the model:
-                same symbol <=> same (component, multi-index); SymbolicExpr(k) == generic substitution of the chains
-                by their symbols and contains no terminal expression any more; reported maximum == maximum over all
-                chains found by an independent traversal of the sympy tree.
+                same symbol <=> same identity ((component, multi-index) for chains); SymbolicExpr(k) == generic
+                substitution of the named objects by their symbols (own recursion over the sympy tree; interface
+                operators and pull-backs transparent) and contains no terminal expression any more; it raises iff the
+                kernel contains an object without translation; reported maximum == maximum over all chains over
+                functions found by an independent traversal of the sympy tree.
 """
 import copy
 import json
@@ -287,7 +296,9 @@ class Gen:
             kernel = {"k": "tuple", "items": [kernel, {"k": "vec", "name": v["name"]}]}
         if geo and r.random() < 0.5:
             top = self.geo_top(st)
-            kernel = self.at_top(kernel, lambda e: {"k": r.choice(["add", "mul"]), "args": [e, top]})
+            # (the .expr of an L2 pull-back is a product: as a factor it would be merged into the product around it)
+            how = "add" if top.get("kind") == "l2" else r.choice(["add", "mul"])
+            kernel = self.at_top(kernel, lambda e: {"k": how, "args": [e, top]})
         if geo and r.random() < 0.3:
             # the restriction of a whole (canonical) entry to one side: the constructor distributes it over sums
             # and products, the operator ends up around powers, functions and atoms
@@ -369,7 +380,7 @@ class Gen:
         r = self.rng
         funcs = list(funcs)
         have = {f["name"] for f in funcs}
-        for n in ("u", "x", "y", "M", "det_M", "wvol_M"):
+        for n in ("u", "x", "M", "det_M", "wvol_M"):
             if n not in have:
                 funcs.append({"name": n, "vector": False})
         M, N = {"name": "M", "side": None}, {"name": "N", "side": None}
@@ -391,7 +402,7 @@ class Gen:
             [ch([], mc(M, 0)), ch([], mc(N, 0))],                                   # the mapping's name is dropped
             [ch(["dx1"], mc(M, 0)), ch(["dx1"], mc(Mm, 0))],
             [ch([], mc(M, 0)), fn("x")], [ch(["dx1"], mc(M, 0)), ch(["dx1"], {"t": "s", "name": "x"})],
-            [ch([], mc(M, 1 if dim > 1 else 0)), {"k": "sym", "name": "y" if dim > 1 else "x"}],   # coordinate symbol
+            [ch([], mc(M, 1)), {"k": "sym", "name": "y"}],                         # the coordinate symbol itself
             [ch([], side(False, u)), ch([], side(True, u)), ch([], u)],             # the side is dropped
             [ch(["dx"], side(False, u)), ch(["dx"], u)],
             [ch(["dx1", "dx1"], side(True, u)), ch(["dx1", "dx1"], side(True, side(False, u)))],
@@ -645,6 +656,13 @@ def checks_of(ci, res, var):
     else:
         want = coq_res(s, None)
         out.append(("symbolic", "res_ac_eqb (%s) %s" % (term, want) if want else "false", term))
+    if "call0" in res:
+        c0, c2 = res["call0"], res["call2"]
+        out.append(("call0", "call_res_beq (symbolic_call %s []) Unevaluated" % pe if c0.get("ok") is True else "false",
+                    "symbolic_call %s []" % pe))
+        want = coq_res(c2, coq_expr)
+        out.append(("call2", "call_res_beq (symbolic_call %s [%s; %s]) (Evaluated %s)" % (pe, kname, kname, want) if want else "false",
+                    "symbolic_call %s [%s; %s]" % (pe, kname, kname)))
     f = res["find"]
     if "ok" in f:
         out.append(("find", "list_beq chain_beq (find_pd_g %s %s) %s" % (ea, kname, coq_list([coq_chain(c) for c in f["ok"]])),
@@ -799,11 +817,18 @@ def oracle(case, res, known=None):
             bad.append({"sig": {"kind": "untranslatable-accepted", "err": str(g)},
                         "msg": "the kernel contains an object without translation (expected %s) but SymbolicExpr(kernel) %s"
                                % (" / ".join(w), "returned a result" if g is None else "raised " + g), "focus": {}})
+        # (otherwise: the same exception as required)
     elif not s["ok"]["equal"] or s["ok"]["residual"]:
         cause = "pow-exponent" if exponent_has_terminal(res["kernel"]) else "none"
         bad.append({"sig": {"kind": "symbolic-not-homomorphic", "cause": cause},
                     "msg": "SymbolicExpr(kernel) is not the result of substituting every chain by its symbol (terminal nodes left "
                            "in the result: %s)" % (s["ok"]["residual"],), "focus": {}, "got": s["ok"]["got"], "want": s["ok"]["want"]})
+    if "call0" in res and (res["call0"].get("ok") is not True or res["call2"].get("err") != "ValueError"):
+        bad.append({"sig": {"kind": "arity"}, "msg": "SymbolicExpr() must stay unevaluated and SymbolicExpr(k, k) must raise "
+                    "ValueError: %s / %s" % (res["call0"], res["call2"].get("err", "returned a result")), "focus": {}})
+    if res.get("verbose_same") is False:
+        bad.append({"sig": {"kind": "verbose-changes-result"}, "msg": "get_index_(logical_)derivatives_atom(kernel, F, verbose=True) "
+                    "differs from the result without verbose", "focus": {}})
     # ---- O3: reported maximal orders == true maxima (independent traversal done by the runner on the sympy tree)
     chains = [c for c in res["true_chains"] if c["ops"]]
     ctxs = {}     # chain -> enclosing non-entered constructions, outermost first (shortest list if it occurs twice)
@@ -820,7 +845,13 @@ def oracle(case, res, known=None):
     for q, rp, rl in queries:
         for fam, ops3, rep in (("physical", PHYS, rp), ("logical", LOG, rl)):
             if "ok" not in rep:
-                continue                      # refused (python list without F): nothing is reported
+                # refused: only a python list / tuple without F (it has no .atoms) may be
+                if q is not None or res["kernel"]["k"] != "seq" or rep["err"] != "AttributeError":
+                    bad.append({"sig": {"kind": "max-raised", "err": rep["err"]},
+                                "msg": "get_max_%spartial_derivatives(kernel%s) raised %s" % (
+                                    "logical_" if fam == "logical" else "", "" if q is None else ", F=%s" % show_q(q), rep["err"]),
+                                "focus": {"q": q, "family": fam}})
+                continue
             mine = [c for c in chains if q_matches(q, c["atom"])]
             true = [max([c["ops"].count(o) for c in mine] + [0]) for o in ops3]
             if rep["ok"] == true:
@@ -1342,8 +1373,10 @@ def main(run, replay=None):
     cov = {
         "evaluations": nchecks,
         "distinct_nontrivial": len(distinct),
-        "rule": "one evaluation = one output of the real code (symbol of a chain, SymbolicExpr of a kernel, find_partial_derivatives, "
-                "get_index_*_atom and get_max_*partial_derivatives for F=None / every function / component / vector function) "
+        "rule": "one evaluation = one output of the real code (symbol of a chain / geometry atom / plain Indexed, SymbolicExpr of a kernel "
+                "(result or exception), SymbolicExpr with 0 / 2 arguments, find_partial_derivatives, "
+                "get_index_*_atom and get_max_*partial_derivatives for F=None / every function / component / vector function / "
+                "function restricted to a side of an interface that occurs) "
                 "compared with the model inside Coq; a case = (dimension, functions, kernel, extra chains); non-trivial = the kernel "
                 "contains >= 2 derivative chains with different (component, multi-index); distinct = different (dimension, kernel "
                 "as read back from sympy) after canonical JSON hashing",
@@ -1373,8 +1406,16 @@ def main(run, replay=None):
     assumptions = [
         "The theorems are about coq/Model/NamesM.v; the tie to sympde/topology/mapping.py and derivatives.py is the correspondence run of this check.",
         "A function is identified by its name (and a component by name + index), as SymbolicExpr does; two functions with one name belong to C12.",
-        "Name hygiene (function names without '_') and pure chains (only physical or only logical operators) are explicit hypotheses "
-        "of the injectivity theorem; both are refuted without them and the real code is confirmed to behave like the model there.",
+        "Name hygiene (function names without '_', not x / y / z when mapping components are around) and pure chains (only physical or "
+        "only logical operators) are explicit hypotheses of the injectivity theorems; each is refuted without it and the real code is "
+        "confirmed to behave like the model there (corpus cases 'C17-ext: witnesses ...').",
+        "For atoms other than plain functions / components the symbol identifies the atom only up to the side of an interface and "
+        "the name of the mapping (akey_of); the collisions are recorded findings.",
+        "SymbolicWeightedVolume and PullBack are not commutative while their symbols are: they are generated as a whole term / factor / "
+        "item at the top of a kernel only, where sympy's automatic rewriting cannot act after the translation; the model treats them "
+        "everywhere.",
+        "mapping.py:1435 (second `isinstance(expr, Indexed)` arm of SymbolicExpr.eval) is dead code: the first Indexed arm catches every "
+        "Indexed (A[i] -> Symbol('A_i'), only the FIRST index is used).",
         "sympy's Add/Mul/Pow/Function constructors are modelled as free constructors; their automatic merging of equal arguments is "
         "checked by the substitution oracle instead (SymbolicExpr(k) == k.xreplace(chain -> symbol)).",
     ]
